@@ -10,6 +10,8 @@ CONSTANTS
   CCps <- MCCps
   MaxOps = 4
   AllowSharedMutation = TRUE
+  CMaxOps = 2
+  AllowScratchReuse = FALSE
   Pairs <- MCPairs
   BaseOf <- MCBaseOf
 INIT Init
